@@ -75,6 +75,120 @@ def sparse_validate_zero(E):
     E.prove('validate:count0-rejected', L.Not(L.truth(r)))
 
 
+def sparse_get(E):
+    blk = S.sparse_block(E, 's')
+    a, c = E.int('address'), E.int('count', 1, None)
+    E.assume(L.truth(E.call(S.SPARSE + '.validate', blk, a, c)))
+    r = E.call(S.SPARSE + '.getValues', blk, a, c)
+    E.prove('get:exactly-count-values', L.length(r) == c)
+    E.prove('get:in-address-order', L.forall(0, c, lambda k: L.at(r, k) == L.map_get(blk.values, a + k)))
+
+
+def slave_offset(E):
+    """slave context: documented one-based offset unless zero-mode; table by function code (spec table)"""
+    ctx = S.slave_context(E)
+    fx = E.choice('fx', sorted(S.TABLE_OF_FC))
+    a, c = E.int('address', 0, 65536), E.int('count', 1, 65536)
+    blk = ctx.store[S.TABLE_OF_FC[fx]]
+    off = L.ite(ctx.zero_mode, 0, 1)
+    r = E.method(ctx, 'validate', fx, a, c)
+    E.prove('slave.validate:offset+table', L.Iff(L.truth(r), L.forall(a + off, a + off + c, lambda k: S.seq_in_domain(blk, k))))
+    E.assume(L.truth(r))
+    before = E.clone(ctx)
+    got = E.method(ctx, 'getValues', fx, a, c)
+    E.prove('slave.getValues:cells', L.And(L.length(got) == c, L.forall(0, c, lambda k: L.at(got, k) == L.at(blk.values, a + off + k - blk.address))))
+    E.prove('slave.getValues:pure', E.same_state(ctx, before))
+
+
+def slave_set(E):
+    ctx = S.slave_context(E)
+    fx = E.choice('fx', sorted(S.TABLE_OF_FC))
+    t = S.TABLE_OF_FC[fx]
+    a = E.int('address', 0, 65536)
+    new = E.bools('new', minlen=1) if t in S.BIT_TABLES else E.ints('new', 0, 65536, minlen=1)
+    n = L.length(new)
+    off = L.ite(ctx.zero_mode, 0, 1)
+    E.assume(L.truth(E.method(ctx, 'validate', fx, a, n)))
+    before = E.clone(ctx)
+    E.method(ctx, 'setValues', fx, a, new)
+    for tt in 'dcih':
+        blk, old = ctx.store[tt], before.store[tt]
+        if tt == t:
+            E.prove('slave.setValues:extent', L.And(blk.address == old.address, L.length(blk.values) == L.length(old.values)))
+            E.prove('slave.setValues:exactly-those-cells', L.forall(0, L.length(old.values), lambda k: L.at(blk.values, k) ==
+                    L.ite(L.And(a + off - old.address <= k, k < a + off - old.address + n), L.at(new, k - (a + off - old.address)), L.at(old.values, k))))
+        else:
+            E.prove('slave.setValues:other-tables-unchanged[%s]' % tt, E.same_state(blk, old))
+    E.prove('slave.setValues:zero_mode-unchanged', L.Iff(ctx.zero_mode, before.zero_mode))
+
+
+SRV = S.SERVER
+
+
+def server_multi(E):
+    """multi-unit server context: exactly the registered ids are routed; 0..247 only can be registered"""
+    slaves = E.intmap('slaves')        # unit id -> (handle of) slave context; the server context treats contexts opaquely
+    srv = E.obj(SRV, single=False, _slaves=slaves)
+    before = E.clone(srv)
+    u = E.int('unit')
+    op = E.choice('op', ['get', 'contains', 'set', 'del'])
+    reg = L.map_has(before._slaves, u)
+    if op == 'get':
+        out = E.attempt(lambda: E.method(srv, '__getitem__', u))
+        if out.ok:
+            E.prove('get:registered->its-context', L.And(reg, out.value == L.map_get(before._slaves, u)))
+        else:
+            E.prove('get:unregistered->NoSuchSlave', L.And(L.Not(reg), out.exc.cls == 'NoSuchSlaveException'))
+        E.prove('get:pure', E.same_state(srv, before))
+    elif op == 'contains':
+        r = E.method(srv, '__contains__', u)
+        E.prove('contains<=>registered', L.Iff(L.truth(r), reg))
+    elif op == 'set':
+        c = E.int('ctx_handle')
+        out = E.attempt(lambda: E.method(srv, '__setitem__', u, c))
+        inrange = L.And(0 <= u, u <= 247)
+        if out.ok:
+            E.prove('set:only-0..247', inrange)
+            E.prove('set:registers-exactly-u', L.forall(-1, 300, lambda k: L.And(
+                L.Iff(L.map_has(srv._slaves, k), L.Or(k == u, L.map_has(before._slaves, k))),
+                L.Implies(L.map_has(srv._slaves, k), L.map_get(srv._slaves, k) == L.ite(k == u, c, L.map_get(before._slaves, k))))))
+        else:
+            E.prove('set:refused->NoSuchSlave', L.And(L.Not(inrange), out.exc.cls == 'NoSuchSlaveException'))
+            E.prove('set:refused->unchanged', E.same_state(srv, before))
+    else:
+        E.assume(reg)
+        out = E.attempt(lambda: E.method(srv, '__delitem__', u))
+        inrange = L.And(0 <= u, u <= 247)
+        if out.ok:
+            E.prove('del:removes-exactly-u', L.forall(-1, 300, lambda k: L.And(
+                L.Iff(L.map_has(srv._slaves, k), L.And(k != u, L.map_has(before._slaves, k))),
+                L.Implies(L.map_has(srv._slaves, k), L.map_get(srv._slaves, k) == L.map_get(before._slaves, k)))))
+        else:
+            E.prove('del:refused->NoSuchSlave', L.And(L.Not(inrange), out.exc.cls == 'NoSuchSlaveException'))
+            E.prove('del:refused->unchanged', E.same_state(srv, before))
+
+
+def server_single(E):
+    """single mode: every unit id reaches the one context"""
+    c = E.int('ctx_handle', 1, None)      # a context object is truthy
+    srv = E.new(SRV, slaves=c, single=True)
+    u = E.int('unit')
+    E.prove('single:getitem-any-unit', E.method(srv, '__getitem__', u) == c)
+    E.prove('single:contains-any-unit', L.truth(E.method(srv, '__contains__', u)))
+    c2 = E.int('ctx2')
+    E.method(srv, '__setitem__', u, c2)
+    v = E.int('unit2')
+    E.prove('single:setitem-replaces-the-one-context', E.method(srv, '__getitem__', v) == c2)
+
+
+def server_init_multi(E):
+    slaves = E.intmap('slaves')
+    srv = E.new(SRV, slaves=slaves, single=False)
+    u = E.int('unit')
+    out = E.attempt(lambda: E.method(srv, '__getitem__', u))
+    E.prove('init:routes-exactly-given-map', L.Iff(out.ok, L.map_has(slaves, u)))
+
+
 def get_units():
     us = [
         Unit('C18/seq.validate', seq_validate, ['C18'], functions=[S.SEQ + '.validate']),
@@ -85,6 +199,16 @@ def get_units():
         Unit('C18/sparse.validate', sparse_validate, ['C18'], functions=[S.SPARSE + '.validate']),
         Unit('C18/sparse.validate.count0', sparse_validate_zero, ['C18'], functions=[S.SPARSE + '.validate']),
     ]
-    for c in (S.SeqValidate(), S.SeqGetValues(), S.SeqSetValues(), S.SparseValidate()):
+    us += [
+        Unit('C18/sparse.getValues', sparse_get, ['C18'], functions=[S.SPARSE + '.getValues']),
+        Unit('C18/slave.offset', slave_offset, ['C18'], contracts=S.STORE_CONTRACTS,
+             functions=[S.SLAVE + '.validate', S.SLAVE + '.getValues', 'pymodbus.interfaces.IModbusSlaveContext.decode']),
+        Unit('C18/slave.setValues', slave_set, ['C18'], contracts=S.STORE_CONTRACTS, functions=[S.SLAVE + '.setValues']),
+    ]
+    sf = [SRV + '.' + m for m in ('__getitem__', '__contains__', '__setitem__', '__delitem__', '__init__')]
+    us += [Unit('C18/server.multi', server_multi, ['C18'], functions=sf),
+           Unit('C18/server.single', server_single, ['C18'], functions=sf),
+           Unit('C18/server.init.multi', server_init_multi, ['C18'], functions=sf)]
+    for c in S.STORE_CONTRACTS + S.SLAVE_CONTRACTS:
         us.append(c.unit())
     return us
